@@ -326,6 +326,13 @@ func init() {
 				emit(1101, TI(1), TI(w), calls)
 			}
 			emit(1101, TI(0), TI(32767), calls)
+			// frames longer than 65535 bytes (offsets must not be 16-bit)
+			{
+				c := r.Fork(6502)
+				emit(1101, TI(1), TI(0), TList{TList{TI(1200), TBytes(c.Bytes(70000))}})
+				emit(1101, TI(0), TI(0), TList{TList{TI(65535), TBytes(c.Bytes(65536 + 70))}})
+				emit(1101, TI(0), TI(0), TList{TList{TI(700), TBytes(c.Bytes(65537))}, TList{TI(9), TBytes(c.Bytes(20))}})
+			}
 			if tier == "thorough" {
 				calls = TList{}
 				for i := 0; i < 32770; i++ {
